@@ -269,6 +269,12 @@ fn main() {
         let len = if i % 3 == 0 { rng.range(3, 8) } else { rng.range(3, 24) } as usize;
         pairs.push(gen_pair(&mut rng, len));
     }
+    // long histories (see c01.rs)
+    for _ in 0..(if thorough { 8 } else { 2 }) {
+        let len = rng.range(300, 600) as usize;
+        let (a, b, t) = gen_pair(&mut rng, len);
+        pairs.push((a, b, t.replace("style=", "style=long_")));
+    }
     for (pi, (a, b, stags)) in pairs.iter().enumerate() {
         let len = a.len();
         let small = stags.contains("exhaustive");
